@@ -82,7 +82,7 @@ def judge(chk, obs, dbs, tag, asis=False):
         sizes.append(len(chunk))
     verdicts = []
     for res, size, env in zip(run_tlc_parallel(chk, 'TraceReads', 'TraceReads.cfg', envs), sizes, envs):
-        got = {v[0]: v for v in res.tuples('VERDICT')}
+        got = {v[0]: v for v in relgen.printed_tuples(res.stdout, 'VERDICT')}
         if len(got) != size or any(len(v) != 4 for v in got.values()):
             raise tlc.MachineryError(f'TraceReads: expected {size} verdicts, got {len(got)}\n{res.stdout[-2500:]}')
         verdicts += [(got[i][1], got[i][2], got[i][3]) for i in range(1, size + 1)]
